@@ -6,7 +6,7 @@ CONSTANTS MaxSize = 7
  AtomKinds = {"A", "E", "L", "F", "P", "N", "B", "M"}
  LongKinds = {"A", "L", "F"}
  Variants <- VariantsQuick
- FinalOccursCheck = TRUE
+ ExactOccursCheck = TRUE
  AnnotVarCheck = TRUE
  WithModel = TRUE
 INVARIANT ModelTerminates
